@@ -43,6 +43,9 @@ Inductive ex :=
 | EDecodeStr (e : ex)                          (* e.decode("utf-8").rstrip("\0")   (ASCII only in the model) *)
 | EEncodeStr (e : ex)                          (* e.encode("utf-8")                 (ASCII only in the model) *)
 | ERange (e : ex)                              (* range(e), as a list *)
+| EComp (body : ex) (x : string) (it : ex)     (* [body for x in it]; also the generator handed to bytearray() / sum() *)
+| EReversed (e : ex)                           (* reversed(e), as a list *)
+| ESum (e : ex)                                (* sum(e) *)
 | EUnknown (src : string).
 
 Inductive st :=
@@ -55,6 +58,7 @@ Inductive st :=
 | SUpdate (x : string) (path : list ex) (e : ex)             (* x[p..].update(e) *)
 | SAppend (x : string) (path : list ex) (e : ex)             (* x[p..].append(e) *)
 | SDel (x : string) (k : ex)                                 (* del x[k] *)
+| SUnpack (xs : list string) (e : ex)                        (* x1, .., xn = e   (ValueError unless e has n items) *)
 | SIf (c : ex) (a b : list st)
 | SWhile (c : ex) (body : list st)
 | SFor (x : string) (e : ex) (body : list st)
@@ -179,7 +183,7 @@ Definition bin_eval (o : binop) (a b : pv) : result pv :=
       | BAnd => Ok (PInt (Z.land x y))
       | BOr => Ok (PInt (Z.lor x y))
       | BXor => Ok (PInt (Z.lxor x y))
-      | BShl => if (y <? 0)%Z then Raise ValueError else if (4096 <? y)%Z then unmodelled "shift" else Ok (PInt (Z.shiftl x y))
+      | BShl => if (y <? 0)%Z then Raise ValueError else if (1048576 <? y)%Z then unmodelled "shift" else Ok (PInt (Z.shiftl x y))
       | BShr => if (y <? 0)%Z then Raise ValueError else Ok (PInt (Z.shiftr x y))
       end
   | _, _ =>
@@ -338,6 +342,24 @@ Definition range_eval (v : pv) : result pv :=
   | None => Raise TypeError
   end.
 
+Definition reversed_eval (v : pv) : result pv :=
+  match v with
+  | PList l => Ok (PList (rev l))
+  | PBytes b => Ok (PList (rev (map (fun c => PInt (Z.of_N c)) b)))
+  | _ => Raise TypeError
+  end.
+Fixpoint sum_pvs (l : list pv) (acc : Z) : result pv :=
+  match l with
+  | [] => Ok (PInt acc)
+  | x :: r => match as_int x with Some z => sum_pvs r (acc + z)%Z | None => Raise TypeError end
+  end.
+Definition sum_eval (v : pv) : result pv :=
+  match v with
+  | PList l => sum_pvs l 0
+  | PBytes b => Ok (PInt (Z.of_N (fold_left N.add b 0%N)))
+  | _ => Raise TypeError
+  end.
+
 (* ------------------------------------------------------------------ codec bridge *)
 
 Definition pv_of_value (v : value) : pv := match v with VI n => PInt (Z.of_N n) | VB b => PBytes b end.
@@ -419,6 +441,7 @@ Definition store_slice (c : pv) (lo hi : option pv) (v : pv) : result pv :=
       let i := match a with Some i => clip (length l) i | None => 0%nat end in
       let j := match b with Some j => clip (length l) j | None => length l end in
       Ok (PBytes (firstn i l ++ x ++ skipn (Nat.max i j) l)%list)
+  | PBytes _, (PInt _ | PBool _ | PNone | PStr _), Ok _, Ok _ => Raise TypeError
   | PBytes _, _, Ok _, Ok _ => unmodelled "slice-store-value"
   | _, _, Raise e, _ | _, _, _, Raise e => Raise e
   | _, _, _, _ => Raise TypeError
@@ -565,6 +588,28 @@ Section Eval.
     | EDecodeStr a => match eval ρ a with Raise x => Raise x | Ok v => decode_str_eval v end
     | EEncodeStr a => match eval ρ a with Raise x => Raise x | Ok v => encode_str_eval v end
     | ERange a => match eval ρ a with Raise x => Raise x | Ok v => range_eval v end
+    | EComp body x it =>
+        match eval ρ it with
+        | Raise e => Raise e
+        | Ok v =>
+            match iter_items v with
+            | Raise e => Raise e
+            | Ok items =>
+                match (fix go (l : list pv) : result (list pv) :=
+                         match l with
+                         | [] => Ok []
+                         | i :: r => match eval (dict_set ρ x i) body with
+                                     | Raise e => Raise e
+                                     | Ok w => match go r with Ok ws => Ok (w :: ws) | Raise e => Raise e end
+                                     end
+                         end) items with
+                | Ok ws => Ok (PList ws)
+                | Raise e => Raise e
+                end
+            end
+        end
+    | EReversed a => match eval ρ a with Raise x => Raise x | Ok v => reversed_eval v end
+    | ESum a => match eval ρ a with Raise x => Raise x | Ok v => sum_eval v end
     | EUnknown src => unmodelled src
     end.
 
@@ -697,6 +742,16 @@ Section Exec.
                                           | PDict _, _ => Raise KeyError
                                           | _, _ => unmodelled "del"
                                           end)
+        end
+    | SUnpack xs e =>
+        match eval call ρ e with
+        | Raise x => OExn x
+        | Ok v => match iter_items v with
+                  | Raise x => OExn x
+                  | Ok items => if Nat.eqb (length items) (length xs)
+                                then ONorm (fold_left (fun r xi => dict_set r (fst xi) (snd xi)) (combine xs items) ρ)
+                                else OExn ValueError
+                  end
         end
     | SReturn e => match eval call ρ e with Ok v => ORet v | Raise x => OExn x end
     | SRaise e => OExn e
